@@ -31,7 +31,15 @@ def install(world, pm_mod):
             if not r and world.int_at_scan:          # a signal delivered between is_alive() and the put of the reload action
                 world.int_at_scan = False; world.handlers[_signal.SIGINT](_signal.SIGINT, None)
             return r
-        def terminate(self): self.alive = False
+        def terminate(self): self.alive = False; self.code = -15 if getattr(self, 'code', None) is None else self.code
+        def kill(self): self.alive = False; self.code = -9 if getattr(self, 'code', None) is None else self.code
+        def close(self): pass
+        @property
+        def exitcode(self): return None if (self.alive or not self.started) else (getattr(self, 'code', None) if getattr(self, 'code', None) is not None else 1)          # the rest of multiprocessing.Process's read-only surface
+        @property
+        def ident(self): return self.pid
+        @property
+        def sentinel(self): return -1
         def join(self, timeout=None):
             if timeout is None: self.alive = False; self.reaped = True; self.joined = True
     class FakeQueue:
